@@ -495,6 +495,10 @@ SPECS["C15"] = {
          "what": "a console goroutine issues 2 of 9 debugger commands while a program thread runs: data races on the debugger's bookkeeping (happens-before pass, confirmed with go test -race)", "reach": ["both-done"],
          "quick": {"params": {"P": 1}, "two_pass": True, "unwind": 60, "wall_s": 900},
          "thorough": {"params": {"P": 2}, "two_pass": True, "unwind": 60, "wall_s": 3000}},
+        {"name": "H5-console-races-mutex", "pkg": "interpreter", "files": _C15, "fn": "VerifC15ConsoleRaces",
+         "what": "same with a program that enters two mutex blocks (the console's lockstate result refers to the interpreter's mutex tables)", "reach": ["both-done"],
+         "quick": None,
+         "thorough": {"params": {"P": 1, "MUTEX": 1}, "two_pass": True, "unwind": 60, "wall_s": 3000}},
         {"name": "H4-breakpoint-book", "pkg": "interpreter", "files": _C15, "fn": "VerifC15BreakpointBook",
          "what": "2 (quick) / 3 (thorough) symbolic breakpoint commands (break, disablebreak, rmbreak line, rmbreak source) over 3 sources with names in a prefix relation x 2 lines, then a program whose source name is symbolic: suspensions equal the table",
          "reach": ["compared"],
